@@ -79,7 +79,13 @@ impl LanguageTagVocabulary for ArcVoc {
     }
 
     fn get_language_tag(&self, id: langtag::LanguageTag) -> Option<Self::LanguageTag> {
-        Some(ArcTag::new_unchecked(Arc::from(id.as_str())))
+        // NB: `langtag` accepts tags that Sophia rejects (empty subtags, e.g. "-nan"),
+        // and this trait has no way to report an error, so the tag is NOT checked here
+        // (`LanguageTag::new_unchecked` would panic); it is checked by `try_convert_quad`.
+        Some(
+            sophia_api::term::LanguageTag::new_unchecked_const("und")
+                .map_unchecked(|_| Arc::from(id.as_str())),
+        )
     }
 }
 
